@@ -256,7 +256,7 @@ impl Prop for C13 {
     const PART: &'static str = "composition";
     const RULE: &'static str = "proptest choice sequences -> compound layouts of 1-4 components from {R^1..3, SO2, SO3} in any order (also SE2/SE3 through their constructors), weights from {0, 1e-6, 1, 1e3, random}, component bounds (bounded, unbounded, non-convex), resolution fractions, a state pair (canonical or not), t, sampler seed. Oracle: every operation of the compound/SE2/SE3 space is recomputed component by component with the real component spaces and combined by the documented law: distance and resolution to 1e-14 relative, interpolate / enforce_bounds / sample_uniform bit for bit (same generator, same order), satisfies_bounds as conjunction. Non-trivial = >= 2 components of different kinds with not-all-equal weights.";
     fn random_cases(tier: Tier) -> usize {
-        tier.pick(500_000, 2_000_000)
+        tier.pick(2_000_000, 8_000_000)
     }
     fn gen(ch: &mut Ch, _tier: Tier) -> CompCase {
         let kind = ch.pick(&[KindTag::CS, KindTag::CS, KindTag::SE2, KindTag::SE3]);
